@@ -29,9 +29,16 @@ for pid in props:
         "level_note": m["level_note"],
         "technique": m.get("technique", "Lean 4 proof over executable model + differential correspondence check"),
     })
+LEAN_DIR = {"ir": "IR", "hier": "Hier", "xform": "Xform", "names": "Names", "query": "Query", "compare": "Compare",
+            "edif": "Edif", "verilog": "Verilog", "eblif": "Eblif", "io_engine": "IO"}
+EXE = {"io_engine": "drv_io"}
+targets = []
+for e in sorted(engines):
+    targets.append("Spydr.%s.Audit" % LEAN_DIR[e])
+    targets.append(EXE.get(e, "drv_" + e))
 man = {
     "version": 1,
-    "setup_cmd": "cd lean && lake build Spydr " + " ".join(sorted("drv_" + e for e in engines)) if engines else "cd lean && lake build Spydr",
+    "setup_cmd": "cd lean && lake build " + " ".join(targets),
     "hooks": {"guard": "SPYDRNET_VERIF", "enable": "no hooks: checks import spydrnet from /repo's working tree (PYTHONPATH) and read private fields directly",
               "baseline_off_cmd": "cd /repo && /venv/bin/python -m pytest -ra -q -p no:cacheprovider --timeout=900 --continue-on-collection-errors",
               "source_commits": [], "add_only": True},
